@@ -212,7 +212,8 @@ def resolveTypeDefinitionId (T : Table) : Nat → Nat → Option Nat
     | some (.alias (.id d)) => resolveTypeDefinitionId T fuel d
     | some _ => some id
 
-/-- `Types::type_info_func`. -/
+/-- `Types::type_info_func`. (Its calls `self.type_info(resolve, ty)` on the parameter / result
+types are memo hits after the first loop of `analyze` and change nothing.) -/
 def typeInfoFunc (T : Table) (named : List Bool) (infos : List TypeInfo) (fn : Func) :
     Option (List TypeInfo) :=
   match markLive named (fun i => if fn.isImport then { i with borrowed := true }
